@@ -189,7 +189,7 @@ def encode_bech32_checksum(s, network="mainnet"):
 def decode_bech32(s):
     """Returns network, segwit version and the hash from the bech32 address"""
     regtest_prefix = PREFIX["regtest"]
-    if s.startswith(regtest_prefix):
+    if s.startswith(regtest_prefix + "1"):
         hrp, raw_data = regtest_prefix, s[5:]
     else:
         hrp, raw_data = s.split("1")
